@@ -150,7 +150,7 @@ def judge(item):
                         c = closure(tuple(x for x in found if x != "positions"))
                         if kind == "mcall" and not any(loc in c.expr_reach(kf, a) for a in ss[0].node.args):
                             w = "wrong-argument-position:method-call-receiver"
-                        if kind in ("call", "mcall") and FROM_CODE is not None and \
+                        if FROM_CODE is not None and \
                                 FROM_CODE.matches("sink", os.path.join(proj_path, kf), kl, txt[1] or "", ignore_unit=True):
                             # sink_from_code.yaml has a rule for this line whose symbol occurs in the statement text: lian applies
                             # it to every file when it computes the sink's tag, and then every operand counts
@@ -364,7 +364,7 @@ def main():
         chk.require("flows of the minimal run looked up in the extended run", 60 if not thorough else 1200)
         chk.require("runs under an empty rule set compared with 'no flow'", 100 if not thorough else 2000)
         chk.require("dynamic flows checked to lie inside the closure", 100 if not thorough else 2000)
-        per = 8 if not thorough else 150
+        per = 4 if not thorough else 80
         for kd in (["twist:wrong-pos", "twist:tainted-receiver", "twist:other-key", "twist:near-miss-name", "rule:never", "rule:ext",
                     "rule:away:line", "rule:away:unit", "rule:away:language", "rule:away:operation"] + [f"broken:{b}" for b in gen_flow.BROKEN]):
             chk.require(f"gadgets: {kd}", per)
